@@ -16,21 +16,43 @@ import (
 )
 
 type coroGen struct {
-	tp     *sim.Tape
-	labels int
-	inner  bool
-	depth  int
+	tp        *sim.Tape
+	labels    int
+	inner     bool
+	depth     int
+	usesSlice bool
 }
 
 func (g *coroGen) read(dst string) string {
 	tp := g.tp
-	m := []string{"read_u8_as_u32", "read_u16le_as_u32", "read_u16be_as_u32", "read_u24le_as_u32", "read_u32le", "read_u32be"}[tp.Pick(6, 2, 1, 1, 2, 1)]
+	m := []string{"read_u8_as_u32", "read_u16le_as_u32", "read_u16be_as_u32", "read_u24le_as_u32", "read_u24be_as_u32", "read_u32le", "read_u32be"}[tp.Pick(6, 2, 1, 1, 1, 2, 1)]
 	return fmt.Sprintf("%s = args.src.%s?()", dst, m)
+}
+
+// wideRead reads into the u8 / u16 / u64 locals: every width and endianness of
+// the multi-byte read methods, whose slow path (bytes arriving in pieces) is
+// separate generated code per method.
+func (g *coroGen) wideRead() []string {
+	tp := g.tp
+	switch tp.Pick(2, 2, 6) {
+	case 0:
+		return []string{"b8 = args.src.read_u8?()", "this.acc ~mod+= b8 as base.u32"}
+	case 1:
+		m := []string{"read_u16le", "read_u16be", "read_u8_as_u16"}[tp.Draw(3)]
+		return []string{fmt.Sprintf("h16 = args.src.%s?()", m), "this.acc ~mod+= h16 as base.u32"}
+	}
+	m := []string{"read_u8_as_u64", "read_u16le_as_u64", "read_u16be_as_u64", "read_u24le_as_u64", "read_u24be_as_u64",
+		"read_u32le_as_u64", "read_u32be_as_u64", "read_u40le_as_u64", "read_u40be_as_u64", "read_u48le_as_u64", "read_u48be_as_u64",
+		"read_u56le_as_u64", "read_u56be_as_u64", "read_u64le", "read_u64be"}[tp.Draw(15)]
+	return []string{fmt.Sprintf("z64 = args.src.%s?()", m),
+		"this.acc ~mod+= ((z64 & 0xFFFFFFFF) as base.u32) ~mod+ ((z64 >> 32) as base.u32)"}
 }
 
 func (g *coroGen) suspender() []string {
 	tp := g.tp
-	switch tp.Pick(6, 2, 2, 1, 2, 3, 2) {
+	switch tp.Pick(6, 2, 2, 1, 2, 3, 2, 4) {
+	case 7:
+		return g.wideRead()
 	case 5: // the suspension point is inside a compound assignment: the old
 		// value of the left-hand side is needed after the resumption
 		v := []string{"x", "c", "i"}[tp.Pick(3, 2, 1)]
@@ -77,8 +99,24 @@ func (g *coroGen) stmt() []string {
 		}[tp.Draw(8)]
 	case 2: // guard, optional suspension point, use
 		var guard, use string
-		what := tp.Pick(4, 3, 3, 2)
+		what := tp.Pick(4, 3, 3, 2, 3)
 		switch what {
+		case 4: // a local slice: it does not survive a suspension
+			g.usesSlice = true
+			pre := []string{"sl = this.arr[..]", fmt.Sprintf("sl = this.arr[%d .. 8]", tp.Draw(5)), "sl = this.arr[.. 6]"}[tp.Draw(3)]
+			k := tp.Draw(4)
+			out := []string{pre, fmt.Sprintf("if sl.length() > %d {", k)}
+			switch tp.Pick(3, 4, 1) {
+			case 1:
+				out = append(out, ind(g.suspender())...)
+			case 2:
+				out = append(out, "\tx = x ~mod+ 1")
+			}
+			out = append(out, fmt.Sprintf("\tx = x ~mod+ (sl[%d] as base.u32)", k), "}")
+			if tp.Bool() {
+				out = append(out, "this.acc ~mod+= (sl.length() & 0xFF) as base.u32")
+			}
+			return out
 		case 0:
 			guard, use = fmt.Sprintf("i < %d", []int{8, 8, 4, 9}[tp.Pick(3, 3, 1, 1)]), "this.arr[i] = (c & 0xFF) as base.u8"
 		case 1:
@@ -166,6 +204,7 @@ func generateCoroProgram(tp *sim.Tape) string {
 	}
 	sb.WriteString("pub func foo.run?(dst: base.io_writer, src: base.io_reader, n: base.u32) {\n")
 	sb.WriteString("\tvar c : base.u32\n\tvar i : base.u32\n\tvar x : base.u32\n\tvar e : base.u32\n")
+	sb.WriteString("\tvar b8 : base.u8\n\tvar h16 : base.u16\n\tvar z64 : base.u64\n\tvar sl : slice base.u8\n")
 	fmt.Fprintf(&sb, "\te = %s\n", []string{"args.n", "args.n & 7", "this.f0 ~mod+ 1", "5", "args.n ~mod+ 1"}[tp.Draw(5)])
 	if tp.Chance(2, 3) {
 		// locals that hold something before the first suspension point
@@ -174,10 +213,34 @@ func generateCoroProgram(tp *sim.Tape) string {
 			fmt.Fprintf(&sb, "\ti = %s\n", []string{"args.n & 7", "3", "this.f1 & 7"}[tp.Draw(3)])
 		}
 	}
-	n := 2 + tp.Draw(6)
-	for k := 0; k < n; k++ {
-		for _, l := range g.stmt() {
+	if tp.Chance(1, 3) {
+		// a "read soup": many different read methods in one program, each
+		// folded into observable state, so that every method's slow path
+		// (bytes arriving in pieces) is exercised often
+		n := 4 + tp.Draw(7)
+		var body []string
+		for k := 0; k < n; k++ {
+			if tp.Chance(3, 4) {
+				body = append(body, g.wideRead()...)
+			} else {
+				body = append(body, g.read("c"), "this.acc ~mod+= c")
+			}
+			if tp.Chance(1, 5) {
+				body = append(body, "args.dst.write_u8?(a: (this.acc & 0xFF) as base.u8)")
+			}
+		}
+		if tp.Chance(1, 3) {
+			body = append(append([]string{"i = 0", fmt.Sprintf("while i < %d {", 1+tp.Draw(3))}, ind(append(body, "i += 1"))...), "}")
+		}
+		for _, l := range body {
 			sb.WriteString("\t" + l + "\n")
+		}
+	} else {
+		n := 2 + tp.Draw(6)
+		for k := 0; k < n; k++ {
+			for _, l := range g.stmt() {
+				sb.WriteString("\t" + l + "\n")
+			}
 		}
 	}
 	sb.WriteString("\tthis.f1 = 0\n}\n")
